@@ -6369,8 +6369,41 @@ def _entry(v, hasnull):
     return Elem(v, v < 0) if hasnull else Elem(v)
 
 
+@guard
+def h_indexed_builder_clear(kind, n):
+    """Indexed*Builder::clear from any state (n entries, a null appended or not): no entries are left and the builder has forgotten that a null
+    was appended - the next snapshot of a cleared builder is option-type only if a null is appended *again*"""
+    bcls, acls, T = INDEXED_BUILDERS[kind]
+    nc = NodeCtx(['IA', 'IDX', 'CNT', 'UTL', 'KD', 'IDS'], [], unwind=max(12, n + 10))
+    this, arr, idx, fo, b0 = _indexed_builder(nc, kind, 2, n, True)
+    cands = [f for mod_ in nc.m.eng.mods for f in mod_.func_src if f.startswith('_ZN7awkward14IndexedBuilderI') and f.endswith('5clearEv') and ('IndexedArrayOfI%sLb0' % T) in f]
+    if not cands:
+        raise Unsupported('IndexedBuilder<%s>::clear not found' % acls)
+    out = nc.m.call(cands[0], [this])
+    ob = out.mem.o['builder']
+    obls = [('clear does not raise', out.raised), ('no entries are left', ob.cells[fo[2] + 32][0] != 0),
+            ('the builder no longer remembers a null', ob.cells[fo[4]][0] != 0)]
+
+    def replay(model, ent):
+        import subprocess, os
+        drv = INDEXED_BUILDER_DRIVER.replace('ArrayBuilder b(ArrayBuilderOptions(8, 1.5));\n  b.null(); b.append(array, at); b.append(array, at);', 'ArrayBuilder b(ArrayBuilderOptions(8, 1.5));\n  b.append(array, at); b.null(); b.clear(); b.null(); b.append(array, at); b.append(array, at);') \
+                                   .replace('b2.append(array, at);', 'b2.append(array, at); b2.null(); b2.clear(); b2.append(array, at);').replace('printf("with a null', 'if (b2.snapshot().get()->classname() != "IndexedArray64") { printf("after append; null; clear; append the snapshot is a %s\\\\n", b2.snapshot().get()->classname().c_str()); return 1; }\n  printf("with a null')
+        try:
+            exe = fullnative.link_driver(drv, 'ixbuilderclear')
+        except Exception as e:      # noqa
+            return False, 'replay driver did not build: %s' % str(e)[-400:], {}
+        r = subprocess.run([exe, kind, '3', '1', '2', '0'], capture_output=True, text=True, timeout=30, env=dict(os.environ, ASAN_OPTIONS='detect_leaks=0'), errors='replace')
+        payload = dict(kind=kind, native=r.stdout.strip())
+        if r.returncode != 0:
+            return True, '%s: append; null; clear; append: %s' % (acls, r.stdout.strip() or r.stderr[-200:]), payload
+        return False, 'native builder agrees (%s)' % r.stdout.strip(), payload
+    return mdischarge(nc.m, 'Indexed%sBuilder::clear %d entries' % (kind, n), obls, [], replay=replay,
+                      extra=dict(bounds='builder holding %d entries with a null appended' % n))
+
+
 def jobs_indexed_builder(tier):
     js = [(h_indexed_builder_append, (k, 2, 1), 900) for k in INDEXED_BUILDERS] + [(h_indexed_builder_snapshot, (k, 2, hn), 900) for k in INDEXED_BUILDERS for hn in (False, True)]
+    js += [(h_indexed_builder_clear, (k, 2), 900) for k in INDEXED_BUILDERS]
     if tier != 'quick':
         js += [(h_indexed_builder_append, (k, 3, 0), 900) for k in INDEXED_BUILDERS] + [(h_indexed_builder_snapshot, (k, 0, False), 900) for k in INDEXED_BUILDERS]
     return js
